@@ -177,3 +177,21 @@ Theorem restart_is_startable :
                   ph s2 = Running /\ serve s2 = SInit /\ workers s2 = [] /\ wg s2 = 0 /\ shut s2 = false /\
                   sds s2 = [] /\ lclosed s2 = false /\ pcdl s2 = false.
 Proof. exact restart_startable. Qed.
+
+(* a start call that fails before srv.started is set (ListenAndServe: bad
+   network, tcp-tls without certificates, listen error such as address in use,
+   setUDPSocketOptions error; ActivateAndServe: no listeners) is only possible
+   on a server that is not started and leaves it exactly as it was: a Shutdown
+   call gets the not-started error at once, a retry of the start succeeds *)
+Theorem failed_listen_leaves_unstarted :
+  forall (s s' : state) (i : nat),
+    step s (StFail i) = Some s' ->
+    ph s <> Running /\ ph s' = ph s /\ serve s' = serve s /\ workers s' = workers s /\ wg s' = wg s /\
+    shut s' = shut s /\ sds s' = sds s /\ lclosed s' = lclosed s /\ pcdl s' = pcdl s /\
+    find_a i (sts s') = Some StDone /\
+    (forall j, find_a j (sds s') = Some SdPending ->
+       exists s1 s2, step s' (SdAtomic j) = Some s1 /\ step s1 (SdReturn j ResNotStarted) = Some s2 /\
+                     find_a j (sds s2) = Some (SdDone ResNotStarted)) /\
+    (forall k, ph s = Fresh -> find_a k (sts s') = Some StPending ->
+       exists s1, step s' (StAtomic k) = Some s1 /\ ph s1 = Running /\ serve s1 = SInit).
+Proof. exact failed_listen_unstarted. Qed.
